@@ -22,7 +22,7 @@ func init() { register(c04{}) }
 func (c04) Meta() core.Meta {
 	return core.Meta{
 		ID: "C04", Level: "exploration",
-		Rule: "case i = f(seed,i): generated document starting at its root element: prefix-preserving names from a small colliding alphabet (arbitrary interleaving of equally and differently named siblings; in 1/5 of the cases every permutation-like shuffle of 2-4 names), attributes incl. xmlns declarations in a fixed order, at most one comment / directive / processing instruction per element, text alone or before the child elements, values with the five specials, blanks, non-ASCII, number look-alikes; default and alternative global key prefix; value escaping on. The document and every output (MapSeq.Xml, MapSeq.XmlIndent, BeautifyXml, NewMapFormattedXmlSeq(indented).Xml) are tokenised with the std RawToken and normalised (whitespace-only text dropped, text trimmed); the streams must be equal token by token; re-decoding the indented form must re-encode to the same compact bytes. Non-trivial: >=3 elements and (interleaved repeat or comment/directive/PI or >=2 attributes on an element); distinct by hash(doc, key prefix).",
+		Rule:        "case i = f(seed,i): generated document starting at its root element: prefix-preserving names from a small colliding alphabet (arbitrary interleaving of equally and differently named siblings; in 1/5 of the cases every permutation-like shuffle of 2-4 names), attributes incl. xmlns declarations in a fixed order, at most one comment / directive / processing instruction per element, text alone or before the child elements, values with the five specials, blanks, non-ASCII, number look-alikes; default and alternative global key prefix; value escaping on. The document and every output (MapSeq.Xml, MapSeq.XmlIndent, BeautifyXml, NewMapFormattedXmlSeq(indented).Xml) are tokenised with the std RawToken and normalised (whitespace-only text dropped, text trimmed); the streams must be equal token by token; re-decoding the indented form must re-encode to the same compact bytes. Non-trivial: >=3 elements and (interleaved repeat or comment/directive/PI or >=2 attributes on an element); distinct by hash(doc, key prefix).",
 		Assumptions: []string{"the std RawToken stream defines 'the original token stream'", "inter-element whitespace is formatting (trimmed by the decoder under its default options)"},
 		Anchors:     []string{"NewMapXmlSeq", "xmlSeqToMapParser", "MapSeq.Xml", "MapSeq.XmlIndent", "mapToXmlSeqIndent", "elemListSeq.Less", "BeautifyXml", "NewMapFormattedXmlSeq"},
 		Floors:      map[string]int64{"feature:interleaved": 500, "feature:misc": 1000, "feature:text-before-children": 300, "feature:xmlns-attr": 300, "feature:multi-attr": 1000, "altkeyprefix": 500},
@@ -36,7 +36,7 @@ func (c04) Cases(tier string, race bool) int {
 	if tier == "thorough" {
 		return 400000
 	}
-	return 12000
+	return 40000
 }
 
 var c04gen = xt.GenCfg{Names: []string{"a", "b", "c", "d", "x-y", "Ab"}, Prefixes: []string{"", "", "", "ns", "n2"}, Texts: c02texts, MaxKids: 5, MaxAttrs: 4, WideProb: 60, SeqMode: true}
